@@ -29,6 +29,18 @@ func vfBigValues() []string {
 	return []string{l4k, l64k, "head\n" + l64k + "\ntail", many, many + "\n---\n" + l4k}
 }
 
+// vfBoundaryLines: one long line in which a special token sits exactly at, right
+// before or right after the sizes at which buffered readers split their input.
+func vfBoundaryLines() []string {
+	var out []string
+	for _, n := range []int{4096, 65536} {
+		for _, tok := range []string{"---", "/-/-/-/", "[TestA - 2]"} {
+			out = append(out, strings.Repeat("x", n)+tok, strings.Repeat("x", n-len(tok))+tok, strings.Repeat("x", n)+tok+"y", tok+strings.Repeat("x", n))
+		}
+	}
+	return out
+}
+
 // vfNear lists near-misses of a special token: what a reader or writer that is
 // slightly too tolerant (trimming, prefix/suffix matching, doubling) would confuse with it.
 func vfNear(tok string) []string {
